@@ -28,7 +28,7 @@ import (
 )
 
 type op struct {
-	K string `json:"k"`           // servestart | accept | acceptheld | releasenew | send | sendidle | sendheld | release | holdtop | releasetop | finish | clientclose | shutdown | expire
+	K string `json:"k"`           // servestart | accept | acceptheld | releasenew | tick | send | sendidle | sendheld | release | holdtop | releasetop | finish | clientclose | shutdown | expire
 	C int    `json:"c,omitempty"` // index into the candidates (mod their number)
 	N int    `json:"n,omitempty"` // accept: requests already sent
 	B bool   `json:"b,omitempty"` // finish: answer with Connection: close
@@ -557,6 +557,11 @@ func (rn *runner) do(o op) {
 		}
 		rn.rest(t0)
 		rn.emit(ops)
+	case "tick":
+		// five seconds pass for closeIdleConns: a new connection that has sent nothing now counts as idle
+		fasthttp.VerifAgeIdleConns(rn.s, 5)
+		rn.rest(t0)
+		rn.emit([]string{"LTick 5%Z"})
 	case "releasenew":
 		r := rn.pick(func(r *crec) bool { return r.heldNew != nil }, o.C)
 		if r == nil {
@@ -850,6 +855,13 @@ func corpus() []desc {
 		{Class: "reuse", Deadlines: true, Ops: ops("servestart accept:1 shutdown finish servestart accept:1 shutdown expire finish servestart accept:1 shutdown finish")},
 		{Class: "reuse", Ops: ops("shutdown servestart accept:1 shutdown finish shutdown shutdown servestart accept:1 finish shutdown")},
 		{Class: "reuse", CloseOnShutdown: true, Ops: ops("servestart servestart accept:1 accept:1 shutdown finish finish servestart accept:2 shutdown finish finish")},
+		// a NEW connection that stays silent for 5 s counts as idle too (marker connTime+5s): its first request is read just as Shutdown's closeIdleConns
+		// closes it - the goroutine must find it untracked and leave without starting the handler (3ea360e covers the first request as well)
+		{Class: "fresh", Ops: ops("servestart accept:0 tick sendheld shutdown release")},
+		{Class: "fresh", Deadlines: true, Ops: ops("servestart accept:0 tick sendheld shutdown release")},
+		{Class: "fresh", Ops: ops("servestart accept:1 accept:0 accept:0 tick sendheld shutdown release finish")},
+		{Class: "fresh", Ops: ops("servestart accept:0 sendheld shutdown release finish")},
+		{Class: "fresh", Ops: ops("servestart accept:0 accept:0 tick shutdown")},
 		// the context expires while a handler runs: an error is returned, the stop flag is reset, the connection goes on
 		{Class: "expire", Ops: ops("servestart accept:1 shutdown expire finish send finish:close")},
 		// clients that go away
@@ -879,7 +891,7 @@ func corpus() []desc {
 }
 
 func gen(r *rand.Rand, i int) desc {
-	class := hlib.Pick(r, []string{"basic", "basic", "basic", "client", "expire", "holdtop", "heldread", "pipelined", "pipetop", "heldnew", "reuse", "reuse"})
+	class := hlib.Pick(r, []string{"basic", "basic", "basic", "client", "expire", "holdtop", "heldread", "pipelined", "pipetop", "heldnew", "reuse", "reuse", "fresh"})
 	d := desc{Class: class, Deadlines: r.Intn(3) == 0, CloseOnShutdown: r.Intn(4) == 0}
 	if class == "holdtop" || class == "pipetop" {
 		d.Deadlines = true
@@ -898,6 +910,9 @@ func gen(r *rand.Rand, i int) desc {
 		switch {
 		case x < 30:
 			nreq := r.Intn(2)
+			if class == "fresh" {
+				nreq = 0
+			}
 			if class == "pipelined" || class == "pipetop" {
 				nreq = r.Intn(4)
 			}
@@ -908,7 +923,7 @@ func gen(r *rand.Rand, i int) desc {
 			switch class {
 			case "pipelined", "pipetop":
 				d.Ops = append(d.Ops, op{K: "send", C: r.Intn(4)})
-			case "heldread":
+			case "heldread", "fresh":
 				d.Ops = append(d.Ops, op{K: "sendheld", C: r.Intn(4)})
 			default:
 				// a client that waits for the answer before it sends again: pick only connections without outstanding request
@@ -922,6 +937,12 @@ func gen(r *rand.Rand, i int) desc {
 				d.Ops = append(d.Ops, op{K: "holdtop", C: r.Intn(4)})
 			case "heldread":
 				d.Ops = append(d.Ops, op{K: "release", C: r.Intn(4)})
+			case "fresh":
+				if r.Intn(2) == 0 {
+					d.Ops = append(d.Ops, op{K: "tick"})
+				} else {
+					d.Ops = append(d.Ops, op{K: "release", C: r.Intn(4)})
+				}
 			case "expire":
 				d.Ops = append(d.Ops, op{K: "expire"})
 			default:
